@@ -356,8 +356,9 @@ Proof.
   - constructor; [split; reflexivity | constructor].
   - constructor.
   - constructor.
-  - destruct (_ || _); constructor; [exact I | constructor].
-  - destruct (is_empty _); constructor; [exact I | constructor].
+  - destruct (forallb _ _); constructor; [exact I | constructor].
+  - destruct names as [|n names]; [constructor|].
+    destruct (forallb _ _); constructor; [exact I | constructor].
   - destruct (chain_ok ks); constructor; [reflexivity | constructor].
   - destruct (chain_ok ks); constructor; [reflexivity | constructor].
   - discriminate Hnr.
